@@ -796,7 +796,14 @@ pub fn expand<E: Elem>(key: &str, ctx: &mut Ctx, bounds: &Bounds, with_terminals
     let mut emitted: HashSet<String> = HashSet::new();
     for act in acts.iter() {
         // insertions additionally run with partial spare capacity (1 and 2 elements)
-        let inserting = matches!(act.op.as_str(), "ir" | "ic" | "pr" | "pc");
+        // (only for insertions that pass the argument checks: the others panic before any growth)
+        let inserting = match act.op.as_str() {
+            "ir" => act.a[0] <= sr && (sr == 0 || act.a[1] == sc),
+            "pr" => sr == 0 || act.a[0] == sc,
+            "ic" => act.a[0] <= sc && (sc == 0 || act.a[1] == sr),
+            "pc" => sc == 0 || act.a[0] == sr,
+            _ => false,
+        };
         let caps: &[char] = if inserting { &['x', 's', '1', '2'] } else { &['x', 's'] };
         for &cap in caps {
             let mut act = act.clone();
